@@ -1008,10 +1008,21 @@ Definition room_row_accepted (m : rmember) (v : jclass) : bool :=
   end.
 
 (* does GraphDatabaseService::start on the same folder succeed afterwards.  A stored user row
-   without `enabled` is rendered by LOAD_QUERY as Ifnull(_json->'$.33', true) = the SQL integer 1,
-   and load_user_from_json does .as_bool().unwrap() on it *)
+   without `enabled` is rendered by LOAD_QUERY through its default (the SQL integer 1, not a JSON
+   boolean); since 86aa554 load_user_from_json reads `enabled` like UserNode::parse does: a missing
+   member means true, a rendered 1 / 0 its truth value.  The other members a stored row can carry
+   passed the parse rules above, which are at least as strict as what the loader unwraps. *)
+Definition loader_reads (m : rmember) (v : jclass) : bool :=
+  match m, v with
+  | MUserEnabled, _ => true                       (* as_bool, else as_i64, else true *)
+  | MUserKey, JString true => true                (* as_str + base64_decode *)
+  | MRightEntity, JString _ => true               (* as_str *)
+  | (MRightSelf | MRightAll), JBoolean => true    (* as_bool *)
+  | MAuthName, _ => true                          (* not selected by LOAD_QUERY *)
+  | _, _ => false
+  end.
 Definition restart_succeeds (m : rmember) (v : jclass) : bool :=
-  negb (room_row_accepted m v && match m, v with MUserEnabled, JMissing => true | _, _ => false end).
+  negb (room_row_accepted m v) || loader_reads m v.
 
 (* [outcome of add_room_node; probe; the instance starts again and answers] *)
 Definition room_def_obs (m : rmember) (v : jclass) : list Z :=
